@@ -1,0 +1,170 @@
+//go:build verif
+
+package enum
+
+import (
+	stdErrors "errors"
+	"fmt"
+	"reflect"
+	"runtime"
+	"strings"
+
+	"github.com/jsightapi/jsight-schema-go-library/errors"
+	"github.com/jsightapi/jsight-schema-go-library/fs"
+	"github.com/jsightapi/jsight-schema-go-library/internal/lexeme"
+)
+
+// Verification hook (build tag verif): a canonical key of the enum-rule scanner's
+// control state after a prefix, for the product-state exploration of /verif
+// (enum-tprod). Nothing position dependent is part of the key: positions are
+// compared through the delivered events. The set of values seen so far (duplicate
+// detection) is data, not control: only its size, capped at 2, is part of the key.
+
+var verifEvCode = [...]string{
+	lexeme.LiteralBegin: "Lb", lexeme.LiteralEnd: "Le", lexeme.ObjectBegin: "Ob", lexeme.ObjectEnd: "Oe",
+	lexeme.ObjectKeyBegin: "Kb", lexeme.ObjectKeyEnd: "Ke", lexeme.ObjectValueBegin: "Vb", lexeme.ObjectValueEnd: "Ve",
+	lexeme.ArrayBegin: "Ab", lexeme.ArrayEnd: "Ae", lexeme.ArrayItemBegin: "Ib", lexeme.ArrayItemEnd: "Ie",
+	lexeme.InlineAnnotationBegin: "iab", lexeme.InlineAnnotationEnd: "iae",
+	lexeme.InlineAnnotationTextBegin: "itb", lexeme.InlineAnnotationTextEnd: "ite",
+	lexeme.MultiLineAnnotationBegin: "mab", lexeme.MultiLineAnnotationEnd: "mae",
+	lexeme.MultiLineAnnotationTextBegin: "mtb", lexeme.MultiLineAnnotationTextEnd: "mte",
+	lexeme.NewLine: "nl", lexeme.TypesShortcutBegin: "tsb", lexeme.TypesShortcutEnd: "tse",
+	lexeme.KeyShortcutBegin: "ksb", lexeme.KeyShortcutEnd: "kse",
+	lexeme.MixedValueBegin: "mxb", lexeme.MixedValueEnd: "mxe", lexeme.EndTop: "et",
+}
+
+func verifStackCode(t lexeme.LexEventType) byte {
+	switch t { //nolint:exhaustive // Opening types only.
+	case lexeme.LiteralBegin:
+		return 'L'
+	case lexeme.ArrayBegin:
+		return 'A'
+	case lexeme.ArrayItemBegin:
+		return 'I'
+	case lexeme.InlineAnnotationBegin:
+		return 'i'
+	case lexeme.InlineAnnotationTextBegin:
+		return 't'
+	case lexeme.MultiLineAnnotationBegin:
+		return 'm'
+	case lexeme.MultiLineAnnotationTextBegin:
+		return 'x'
+	}
+	return '?'
+}
+
+func verifStepName(f stepFunc) string {
+	if f == nil {
+		return "nil"
+	}
+	n := runtime.FuncForPC(reflect.ValueOf(f).Pointer()).Name()
+	return strings.TrimSuffix(n[strings.LastIndex(n, ".")+1:], "-fm")
+}
+
+func verifKeyOf(s *scanner) string {
+	var sb strings.Builder
+	sb.WriteString("K:")
+	sb.WriteString(verifStepName(s.step))
+	sb.WriteString("|r=")
+	for i := 0; i < s.returnToStep.Len(); i++ {
+		if i > 0 {
+			sb.WriteByte(',')
+		}
+		sb.WriteString(verifStepName(s.returnToStep.Get(i)))
+	}
+	sb.WriteString("|s=")
+	for i := 0; i < s.stack.Len(); i++ {
+		sb.WriteByte(verifStackCode(s.stack.Get(i).Type()))
+	}
+	b2i := func(b bool) int {
+		if b {
+			return 1
+		}
+		return 0
+	}
+	nu := len(s.uniqueValues)
+	if nu > 2 {
+		nu = 2
+	}
+	fmt.Fprintf(&sb, "|an=%d|u=%d|ht=%d|lc=%d|f=%d|nu=%d", b2i(s.annotation), b2i(s.unfinishedLiteral),
+		b2i(s.hasTrailingCharacters), b2i(s.lengthComputing), len(s.finds), nu)
+	return sb.String()
+}
+
+// VerifEnumProbe feeds data to a fresh scanner exactly as Next does - one step
+// per byte, every found lexeme processed before the next byte is read, an error
+// returned by a step ends the run and drops the lexemes found in that step - but
+// without the end-of-input rule, and returns "<events>|<outcome>": the events
+// delivered since the scanner began to read the byte at position from, and the
+// canonical key of its control state ("K:..."), or "ERR code index", or "CRASH",
+// or "STOP" for the end-of-stream sentinel (in length mode followed by the
+// result of Length on data).
+func VerifEnumProbe(data []byte, from int, lengthMode bool) (out string) {
+	var evs []string
+	defer func() {
+		if r := recover(); r != nil {
+			out = strings.Join(evs, " ") + "|CRASH"
+		}
+	}()
+	mk := func() *scanner {
+		if lengthMode {
+			return newScanner(fs.NewFile("", data), scannerComputeLength)
+		}
+		return newScanner(fs.NewFile("", data))
+	}
+	s := mk()
+	fail := func(err error) string {
+		res := "OTHER " + err.Error()
+		var de errors.DocumentError
+		switch {
+		case stdErrors.Is(err, errEOS):
+			res = "STOP"
+			if lengthMode {
+				l, e := mk().Length()
+				if e != nil {
+					res += " " + verifErrStr(e)
+				} else {
+					res += fmt.Sprintf(" LEN %d", l)
+				}
+			}
+		case stdErrors.As(err, &de):
+			res = fmt.Sprintf("ERR %d %d", de.ErrCode(), de.Index())
+		}
+		return strings.Join(evs, " ") + "|" + res
+	}
+	recording := false
+	for {
+		if len(s.finds) != 0 {
+			lt, err := s.shiftFound()
+			if err != nil {
+				return fail(err)
+			}
+			lex, err := s.processingFoundLexeme(lt)
+			if err != nil {
+				return fail(err)
+			}
+			if recording {
+				evs = append(evs, fmt.Sprintf("%s%d:%d", verifEvCode[lex.Type()], lex.Begin(), lex.End()))
+			}
+			continue
+		}
+		if s.index >= s.dataSize {
+			break
+		}
+		if int(s.index) >= from {
+			recording = true
+		}
+		c := s.data[s.index]
+		s.index++
+		if _, err := s.step(c); err != nil {
+			return fail(err)
+		}
+	}
+	return strings.Join(evs, " ") + "|" + verifKeyOf(s)
+}
+
+// VerifEnumKey the canonical key of the control state after data (or the outcome), without events.
+func VerifEnumKey(data []byte) string {
+	r := VerifEnumProbe(data, len(data)+1, false)
+	return r[strings.Index(r, "|")+1:]
+}
